@@ -300,6 +300,7 @@ structure CreateEffect (t t' : T) (parent : Option Deme) (seed : Option Ind) : P
     old = (match parent with
       | some p => updFirst p.id (fun x => { x with children := x.children ++ [nextChildId t p] }) t.demes
       | none => t.demes) ∧ d.children = [] ∧
+    (∃ g, d.hist = [[g]] ∧ ∀ i ∈ g.inds, g.evald.contains i = true ∨ d.seed = some i) ∧
     d.level = (match parent with | some p => p.level + 1 | none => 0) ∧
     d.id = (match parent with | some p => nextChildId t p | none => []) ∧
     d.active = true ∧ d.hib = false ∧ d.startedAt = t.metaepoch ∧ d.seed = seed ∧
@@ -318,6 +319,31 @@ theorem addChild_forall2 (pid cid : Id) (ds : List Deme) :
     split
     · exact .cons ⟨_, rfl⟩ (forall2_sameBC_refl ds)
     · exact .cons (SameBC.refl d) ih
+
+/-- every member of an accepted initial population was evaluated while the deme was built —
+except a local deme's starting point, which is its seed -/
+theorem initPopOk_first {mx : Bool} {lc : LevelCfg} {seed : Option Ind} {env : NewEnv} {ev : List Ind} {u : Unit}
+    (h : initPopOk mx lc seed env ev = .ok u) : ∀ i ∈ env.pop, ev.contains i = true ∨ seed = some i := by
+  intro i hi
+  unfold initPopOk at h
+  split at h
+  · split at h
+    · split at h
+      · simp at h
+      · rename_i hc
+        simp only [Bool.or_eq_true, bne_iff_ne, ne_eq, Bool.not_eq_eq_eq_not, Bool.not_true, not_or,
+          Decidable.not_not, Bool.not_eq_false] at hc
+        right
+        rw [hc.1] at hi
+        simp only [List.mem_singleton] at hi
+        rw [hi]
+    · simp at h
+  · split at h
+    · simp at h
+    · rename_i hall
+      left
+      simp only [Bool.not_eq_true', Bool.not_eq_false, List.all_eq_true] at hall
+      exact hall i hi
 
 theorem createDeme_effect {t t' : T} {parent : Option Deme} {seed : Option Ind} {env : NewEnv}
     (h : createDeme t parent seed env = .ok t') : CreateEffect t t' parent seed := by
@@ -338,7 +364,10 @@ theorem createDeme_effect {t t' : T} {parent : Option Deme} {seed : Option Ind} 
         have hd1 : t1.demes = t.demes := by
           have := e.demes; simpa [updFirst_bump_zero] using this
         refine ⟨e.cfg, e.metaepoch, e.pc, e.gscSeen, e.refusedMono, by simp only [e.levels]; cases parent <;> rfl, ?_⟩
-        refine ⟨_, _, rfl, ?sbc, ?oldeq, rfl, rfl, rfl, rfl, rfl, rfl, rfl, rfl, ⟨lc, hlc⟩, invs, hlog, ?_, ?_, ?_⟩
+        refine ⟨_, _, rfl, ?sbc, ?oldeq, rfl, ⟨_, rfl, ?first⟩, rfl, rfl, rfl, rfl, rfl, rfl, rfl, ⟨lc, hlc⟩, invs, hlog, ?_, ?_, ?_⟩
+        case first =>
+          rename_i hok
+          exact initPopOk_first hok
         case oldeq =>
           cases parent with
           | none => simp only [hd1]
@@ -354,7 +383,7 @@ theorem createDeme_effect {t t' : T} {parent : Option Deme} {seed : Option Ind} 
             cases seed with
             | none => simp [initPopOk, hl] at hok
             | some s =>
-              simp only [initPopOk, hl] at hok
+              simp only [initPopOk, hl, beq_self_eq_true, ↓reduceIte] at hok
               split at hok
               · simp at hok
               · rename_i hc
@@ -377,7 +406,7 @@ theorem createDeme_effect {t t' : T} {parent : Option Deme} {seed : Option Ind} 
             cases seed with
             | none => simp [initPopOk, hl] at hok
             | some s =>
-              simp only [initPopOk, hl] at hok
+              simp only [initPopOk, hl, beq_self_eq_true, ↓reduceIte] at hok
               split at hok
               · simp at hok
               · rename_i hc
